@@ -234,6 +234,41 @@ func (workingMem *WorkingMemory) Clone(cloneTable *pkg.CloneTable) (*WorkingMemo
 	return nil, fmt.Errorf("clone not equals the origin")
 }
 
+// memorySnapshot is a shallow copy of the registrations of a WorkingMemory at some point in time.
+type memorySnapshot struct {
+	expressions     map[string]*Expression
+	expressionAtoms map[string]*ExpressionAtom
+	variables       map[string]*Variable
+}
+
+// snapshot remembers which expressions, expression atoms and variables are currently registered.
+func (workingMem *WorkingMemory) snapshot() *memorySnapshot {
+	snap := &memorySnapshot{
+		expressions:     make(map[string]*Expression, len(workingMem.expressionSnapshotMap)),
+		expressionAtoms: make(map[string]*ExpressionAtom, len(workingMem.expressionAtomSnapshotMap)),
+		variables:       make(map[string]*Variable, len(workingMem.variableSnapshotMap)),
+	}
+	for k, v := range workingMem.expressionSnapshotMap {
+		snap.expressions[k] = v
+	}
+	for k, v := range workingMem.expressionAtomSnapshotMap {
+		snap.expressionAtoms[k] = v
+	}
+	for k, v := range workingMem.variableSnapshotMap {
+		snap.variables[k] = v
+	}
+
+	return snap
+}
+
+// restore forgets everything that was registered after the snapshot was taken.
+func (workingMem *WorkingMemory) restore(snap *memorySnapshot) {
+	workingMem.expressionSnapshotMap = snap.expressions
+	workingMem.expressionAtomSnapshotMap = snap.expressionAtoms
+	workingMem.variableSnapshotMap = snap.variables
+	workingMem.IndexVariables()
+}
+
 // IndexVariables will index all expression and expression atoms that contains a speciffic variable name
 func (workingMem *WorkingMemory) IndexVariables() {
 	if AstLog.Level <= logger.DebugLevel {
